@@ -36,9 +36,34 @@ func mask(w int) uint64 {
 }
 
 func Const(w int, v uint64) *Expr {
+	if w > 64 {
+		panic("smt.Const: width > 64; use WideConst")
+	}
 	e := mk("const", w)
 	e.Val = v & mask(w)
 	return e
+}
+
+// WideConst builds a constant wider than 64 bits from a signed 64-bit value (never folded).
+func WideConst(w int, v int64) *Expr {
+	if w <= 64 {
+		return Const(w, uint64(v))
+	}
+	return SignExt(w-64, Const(64, uint64(v)))
+}
+
+// WidePow2 returns 2^k as a w-bit term (w may exceed 64).
+func WidePow2(w int, k int) *Expr {
+	if w <= 64 {
+		return Const(w, uint64(1)<<uint(k))
+	}
+	if k < 63 {
+		return WideConst(w, int64(1)<<uint(k))
+	}
+	// 2^k = (zero_extend 2^(k) within k+1 bits) ...
+	// build as concat-free shift of a zero-extended 1
+	one := ZeroExt(w-64, Const(64, 1))
+	return mk("bvshl", w, one, ZeroExt(w-64, Const(64, uint64(k))))
 }
 
 var True = &Expr{Op: "const", W: 0, Val: 1, id: -1}
@@ -330,7 +355,7 @@ func ZeroExt(n int, a *Expr) *Expr {
 	if n == 0 {
 		return a
 	}
-	if a.IsConst() {
+	if a.IsConst() && a.W+n <= 64 {
 		return Const(a.W+n, a.Val)
 	}
 	e := mk("zext", a.W+n, a)
@@ -342,7 +367,7 @@ func SignExt(n int, a *Expr) *Expr {
 	if n == 0 {
 		return a
 	}
-	if a.IsConst() {
+	if a.IsConst() && a.W+n <= 64 {
 		return Const(a.W+n, uint64(sx(a.Val, a.W)))
 	}
 	e := mk("sext", a.W+n, a)
